@@ -102,7 +102,7 @@ def cases(rng):
 def run(ctx):
     rng = ctx.rng
     n = 120 if ctx.quick else 1500
-    violations, checks, kinds, distinct = [], 0, {}, set()
+    violations, checks, kinds, distinct, tagged = [], 0, {}, set(), {}
     corr_scns = [s for _, s in corpus_for(PID)]
     for _ in range(n):
         cs, base, pool = cases(rng)
@@ -111,7 +111,15 @@ def run(ctx):
             if c["kind"].startswith("wrappers") and c is cs[0]:
                 seqd = [x["o"] for x in cs if x["kind"] == c["kind"]] + [c["o"]]
                 checks += len(seqd)
-                violations.extend(same_dict_object_check(scn, c["lhs"], seqd))
+                for v in same_dict_object_check(scn, c["lhs"], seqd):
+                    # the wrapper is long-lived, so datasets below it keep their caches across the calls: inside the zone
+                    # of a recorded stale-entry finding the difference is that finding, not the wrapper's
+                    hscn = dict(scn, ops=[(m, c["lhs"], False, False, o2) for o2 in seqd[:v["call"] + 1] for m in ("evaluate", "validate")])
+                    ml = ctx.coq_eval(f"Zone_C08_sd_{checks}", cp.REQ, "", [core.coq_scenario(hscn)])[0].split(" ## ")
+                    if any(cp.is_dirty(x) for x in ml) and cp.agrees(core.run_impl(hscn), ml, hscn):
+                        v["finding"] = cp.zone_of(hscn)
+                        tagged[v["finding"]] = tagged.get(v["finding"], 0) + 1
+                    violations.append(v)
             if "seq" in c:
                 raws = []
                 lines = core.run_impl(dict(scn, ops=[("evaluate", i, False, False, c["o"]) for i, _ in c["seq"]]), raw_out=raws)
@@ -120,10 +128,18 @@ def run(ctx):
                     checks += 1
                     kinds[c["kind"]] = kinds.get(c["kind"], 0) + 1
                     if not cp.same_outcome(line, raws[j], b[0], b[1]):
-                        violations.append(dict(desc="siblings derived from one dataset (shared cache), evaluated one after the other under the same caller "
+                        # siblings share one cache: inside the zone of a recorded stale-entry finding (the model marks the
+                        # history dirty and agrees with the implementation) the difference is that finding, seen through C08
+                        hscn = dict(scn, ops=[("evaluate", i2, False, False, c["o"]) for i2, _ in c["seq"]])
+                        ml = ctx.coq_eval(f"Zone_C08_{checks}", cp.REQ, "", [core.coq_scenario(hscn)])[0].split(" ## ")
+                        zone = cp.zone_of(dict(hscn, ops=hscn["ops"] + [("evaluate", 0, False, False, e2) for _, e2 in c["seq"]]))
+                        finding = zone if (any(cp.is_dirty(x) for x in ml[:j + 1]) and cp.agrees(lines, ml, hscn)) else None
+                        if finding:
+                            tagged[finding] = tagged.get(finding, 0) + 1
+                        violations.append(dict(finding=finding, desc="siblings derived from one dataset (shared cache), evaluated one after the other under the same caller "
                                                     "options: a derivative does not evaluate like the plain object under ITS overlaid dictionary",
                                                position=j, lhs=cp.outcome(line), rhs=cp.outcome(b[0]), options=repr(c["o"]), overlaid=repr(eff),
-                                               sequence=repr([i for i, _ in c["seq"]]), finding=None,
+                                               sequence=repr([i for i, _ in c["seq"]]),
                                                scenario_repr=cp.dump_scn(dict(scn, ops=[("evaluate", i, False, False, c["o"]) for i, _ in c["seq"]]))))
                         break
                 continue
@@ -163,8 +179,8 @@ def run(ctx):
         "traces_validated_against_impl": stats["ops"],
         "correspondence_mismatches": mism[:5],
         "violations": violations,
-        "known": [],
-        "distribution": dict(stats, oracle_checks=checks, by_kind=kinds),
+        "known": known_findings(),
+        "distribution": dict(stats, oracle_checks=checks, by_kind=kinds, tagged=tagged),
         "exhaustive": False,
         "assumptions": ["the model is pure: 'inputs never mutated' is decided on the implementation by deep snapshots (runtime part, partial)"],
         "trusted_base": ["confectioner.mix is modelled (Base.mix) and validated by the correspondence; the oracle's overlay is an independent re-implementation of the property text"],
@@ -194,6 +210,36 @@ def same_dict_object_check(scn, idx, dicts):
                                  "the update", call=j, got=got, want=want, options=repr(o), same_dict_history=repr(dicts[:j + 1]),
                             lhs_index=idx, finding=None, scenario_repr=cp.dump_scn(scn)))
             break
+    return out
+
+
+def known_findings():
+    """the stale-entry findings D1 / D19 seen through C08: two with_default_options siblings of one dataset
+    (shared cache) that differ only in a key the cached body reads without reporting it"""
+    from gen import K
+    out = []
+    S = core.S
+    # D1: the body reads the whole section K20, whose string value references K23 (supplied by the default layers)
+    d1 = dict(ftable={100: ("tag",)}, env={1: dict(fid=100, kwargs=[("option", K(20), None, None)]),
+                                            2: dict(derived=1, how="with_default_options", preset={23: 5}),
+                                            3: dict(derived=1, how="with_default_options", preset={23: 77})},
+              exprs=[("dataset", 2), ("dataset", 3)])
+    o1 = {20: {22: S(("ref", K(23)))}}
+    # D19: a coalesce member that reads K10 (present only through the default layer) and then misses K11
+    d19 = dict(ftable={100: ("tag",)},
+               env={1: dict(fid=100, kwargs=[("coalesce", [("switch", ("option", K(10), ("value", ("j", 2)), None),
+                                                              [(("j", 1), ("option", K(11), None, None)), (("j", 2), ("value", ("j", core.lit("c"))))], None),
+                                                             ("value", ("j", core.lit("d")))])]),
+                    2: dict(derived=1, how="with_default_options", preset={10: 1}),
+                    3: dict(derived=1, how="with_default_options", preset={12: 0})},
+               exprs=[("dataset", 2), ("dataset", 3)])
+    for fid, scn, o, what in (("D1", d1, o1, "templated string inside a section value read whole: siblings with_default_options({'K23':5}) then "
+                                             "({'K23':77}) of one dataset under {'K20':{'K21Y':'{K23}'}}: the second is served the first's value"),
+                              ("D19", d19, {}, "a coalesce member that read a key supplied by one sibling's default layer and was passed over: "
+                                               "with_default_options({'K10':1}) then ({'K12':0}) under {}: the second is served the first's value")):
+        lines = core.run_impl(dict(scn, ops=[("evaluate", 0, False, False, o), ("evaluate", 1, False, False, o)]))
+        fresh = cp.fresh_eval(scn, 1, o, method="evaluate", disabled=False)
+        out.append(dict(id=fid, still_fails=cp.outcome(lines[1]) != cp.outcome(fresh), what=what))
     return out
 
 
